@@ -104,16 +104,81 @@ Local Notation bcode := (StmtCorrect.bcode Bf).
    the world change *)
 Lemma bcode_same v1 v2 : v_cs v2 = v_cs v1 -> v_frames v2 = v_frames v1 -> bcode v1 -> bcode v2.
 Proof.
-  intros Hc Hf H nm b mo fid Hb Hbf. destruct (H nm b mo fid Hb Hbf) as (morph & fid' & fr & i1 & i2 & R).
-  exists morph, fid', fr, i1, i2. rewrite Hc, Hf. exact R.
+  intros Hc Hf [H1 H2]. split.
+  - intros nm b mo fid Hb Hbf. destruct (H1 nm b mo fid Hb Hbf) as (morph & fid' & fr & i1 & i2 & R).
+    exists morph, fid', fr, i1, i2. rewrite Hc, Hf. exact R.
+  - intros mo fid Hbf. destruct (H2 mo fid Hbf) as (morph & fid' & fr & i1 & i2 & R).
+    exists morph, fid', fr, i1, i2. rewrite Hc, Hf. exact R.
 Qed.
 
 Lemma bcode_extend v s s' code : rcs s' = rev code ++ rcs s -> bcode (load_code v s) -> bcode (load_code v s').
 Proof.
-  intros R H nm b mo fid Hb Hbf. destruct (H nm b mo fid Hb Hbf) as (morph & fid' & fr & i1 & i2 & R1 & R2 & R3 & R4 & R5 & R6 & R7).
-  exists morph, fid', fr, i1, i2. cbn [load_code v_cs v_frames] in *. rewrite R, rev_app_distr, rev_involutive.
-  split; [exact R1|]. split; [exact R2|]. split; [exact R3|]. split; [exact R4|].
-  split; [apply znth_app_l; exact R5|]. split; [apply znth_app_l; exact R6|exact R7].
+  intros R [H1 H2]. split.
+  - intros nm b mo fid Hb Hbf. destruct (H1 nm b mo fid Hb Hbf) as (morph & fid' & fr & i1 & i2 & R1 & R2 & R3 & R4 & R5 & R6 & R7).
+    exists morph, fid', fr, i1, i2. cbn [load_code v_cs v_frames] in *. rewrite R, rev_app_distr, rev_involutive.
+    split; [exact R1|]. split; [exact R2|]. split; [exact R3|]. split; [exact R4|].
+    split; [apply znth_app_l; exact R5|]. split; [apply znth_app_l; exact R6|exact R7].
+  - intros mo fid Hbf. destruct (H2 mo fid Hbf) as (morph & fid' & fr & i1 & i2 & R1 & R2 & R3 & R4 & R5 & R6 & R7).
+    exists morph, fid', fr, i1, i2. cbn [load_code v_cs v_frames] in *. rewrite R, rev_app_distr, rev_involutive.
+    split; [exact R1|]. split; [exact R2|]. split; [exact R3|]. split; [exact R4|].
+    split; [apply znth_app_l; exact R5|]. split; [apply znth_app_l; exact R6|exact R7].
+Qed.
+
+(* a checker for the premise, so that it is established by one computation *)
+Definition dec_is (w : Z) (op k0 : Z) : bool :=
+  let d := decode w in
+  (f_op d =? op) && (f_k0 d =? k0) && (f_k1 d =? 0) && (f_k2 d =? 0) && (f_a0 d =? 0) && (f_a1 d =? 0) && (f_a2 d =? 0).
+
+Lemma dec_is_ok w op k0 : dec_is w op k0 = true ->
+  decode w = {| f_op := op; f_k0 := k0; f_k1 := 0; f_k2 := 0; f_a0 := 0; f_a1 := 0; f_a2 := 0 |}.
+Proof.
+  unfold dec_is. destruct (decode w) as [o a b c d e f]. cbn [f_op f_k0 f_k1 f_k2 f_a0 f_a1 f_a2]. intros H.
+  repeat (apply andb_prop in H; destruct H as [H ?]).
+  repeat match goal with E : (_ =? _) = true |- _ => apply Z.eqb_eq in E end. subst. reflexivity.
+Qed.
+
+Definition fun_at (v : vm) (f : value) (arity op k0 : Z) : bool :=
+  match f with
+  | VFun morph fid =>
+      (fn_params morph =? arity) && (fn_locals morph =? arity) &&
+      match assoc_get (v_frames v) fid, znth (v_cs v) (fn_node morph), znth (v_cs v) (fn_node morph + 1) with
+      | Some _, Some i1, Some i2 => dec_is i1 op k0 && dec_is i2 RET AddrStck
+      | _, _, _ => false
+      end
+  | _ => true
+  end.
+
+Definition bcode_b (v : vm) : bool :=
+  fun_at v (Bf "write") 1 WRITE AddrLcl && fun_at v (Bf "toa") 1 TOA AddrLcl && fun_at v (Bf "aton") 1 ATON AddrLcl &&
+  fun_at v (Bf "read") 0 READ 0.
+
+Lemma fun_at_b v b nm mo fid : fun_at v (Bf nm) 1 (bop_code b) AddrLcl = true -> Bf nm = VFun mo fid -> is_bfun v b (Bf nm).
+Proof.
+  intros H E. rewrite E in *. cbn [fun_at] in H. apply andb_prop in H. destruct H as [H H3]. apply andb_prop in H. destruct H as [H1 H2].
+  apply Z.eqb_eq in H1, H2.
+  destruct (assoc_get (v_frames v) fid) as [fr|] eqn:Ef; [|discriminate H3].
+  destruct (znth (v_cs v) (fn_node mo)) as [i1|] eqn:E1; [|discriminate H3].
+  destruct (znth (v_cs v) (fn_node mo + 1)) as [i2|] eqn:E2; [|discriminate H3].
+  apply andb_prop in H3. destruct H3 as [D1 D2]. apply dec_is_ok in D1, D2.
+  exists mo, fid, fr, i1, i2. repeat split; assumption.
+Qed.
+
+Lemma bcode_b_sound v : bcode_b v = true -> bcode v.
+Proof.
+  unfold bcode_b. intros H. apply andb_prop in H. destruct H as [H Hr]. apply andb_prop in H. destruct H as [H Ha].
+  apply andb_prop in H. destruct H as [Hw Ht]. split.
+  - intros nm b mo fid Hb Hbf. unfold bop_of_name in Hb.
+    destruct (String.eqb_spec nm "write") as [->|_]; [injection Hb as <-; exact (fun_at_b v BWrite "write" mo fid Hw Hbf)|].
+    destruct (String.eqb_spec nm "toa") as [->|_]; [injection Hb as <-; exact (fun_at_b v BToa "toa" mo fid Ht Hbf)|].
+    destruct (String.eqb_spec nm "aton") as [->|_]; [injection Hb as <-; exact (fun_at_b v BAton "aton" mo fid Ha Hbf)|].
+    discriminate Hb.
+  - intros mo fid Hbf. rewrite Hbf in *. cbn [fun_at] in Hr. apply andb_prop in Hr. destruct Hr as [H H3]. apply andb_prop in H. destruct H as [H1 H2].
+    apply Z.eqb_eq in H1, H2.
+    destruct (assoc_get (v_frames v) fid) as [fr|] eqn:Ef; [|discriminate H3].
+    destruct (znth (v_cs v) (fn_node mo)) as [i1|] eqn:E1; [|discriminate H3].
+    destruct (znth (v_cs v) (fn_node mo + 1)) as [i2|] eqn:E2; [|discriminate H3].
+    apply andb_prop in H3. destruct H3 as [D1 D2]. apply dec_is_ok in D1, D2.
+    exists mo, fid, fr, i1, i2. repeat split; assumption.
 Qed.
 
 (* the reset after an error keeps the unread input *)
@@ -333,8 +398,10 @@ Lemma resolve_wstmt : forall t, wstmt t = true -> resolve t [] = Some (t, []).
 Proof.
   apply (wstmt_induction (fun t => resolve t [] = Some (t, []))).
   - intros t Hp. apply resolve_pure. exact Hp.
-  - intros g e Hok. unfold assign_ok in Hok. pose proof Hok as Hp.
+  - intros g e Hp.
     cbn [resolve]. unfold rbind. rewrite (resolve_pure e Hp). reflexivity.
+  - intros g e _ _ He. cbn [resolve]. unfold rbind. rewrite He. reflexivity.
+  - reflexivity.
   - intros l _ _ HF.
     assert (E : resolve_list_of l [] = Some (l, [])).
     { induction HF as [|x r Hx Hr IH]; [reflexivity|]. cbn [resolve_list_of]. unfold rbind. rewrite Hx, IH. reflexivity. }
@@ -361,6 +428,17 @@ Definition stmt_outcome (mc : machine) (t : node) (G' : world) (sres : res value
 
 Definition bready (mc : machine) (c : ctx) (m : mem) : Prop :=
   ready mc c m /\ bcode (load_code (mc_vm mc) (mc_cs mc)).
+
+(* input waiting on standard input does not matter to the premises *)
+Lemma bready_set_in mc c m l :
+  bready mc c m -> bready {| mc_cs := mc_cs mc; mc_vm := set_in (mc_vm mc) l |} c m.
+Proof.
+  intros [[[Hwf [H1 H2 H3 H4]] [Hm Hc]] [Hb1 Hb2]].
+  split; [split; [split; [exact Hwf|constructor; assumption]|split; assumption]|].
+  split.
+  - intros nm b mo fid E1 E2. exact (Hb1 nm b mo fid E1 E2).
+  - intros mo fid E2. exact (Hb2 mo fid E2).
+Qed.
 
 Theorem stmt_step t mc c m n G' sres :
   bready mc c m -> wstmt t = true -> wfb t = true ->
